@@ -381,7 +381,7 @@ fn main() {
     let mut chunks: Vec<Vec<Case>> = Vec::new();
     for (_, v) in groups { for ch in v.chunks(24) { chunks.push(ch.to_vec()); } }
     for i in (1..chunks.len()).rev() { let j = rng.below(i as u64 + 1) as usize; chunks.swap(i, j); }
-    let secs: u64 = std::env::var("SV_BUDGET_S").ok().and_then(|x| x.parse().ok()).unwrap_or(if thorough { 840 } else { 75 });
+    let secs: u64 = std::env::var("SV_BUDGET_S").ok().and_then(|x| x.parse().ok()).unwrap_or(if thorough { 840 } else { 60 });
     let t0 = std::time::Instant::now();
     'outer: for ch in chunks {
         for c in ch {
